@@ -66,6 +66,23 @@ Fixpoint aset {A} (k : str) (v : A) (m : list (str * A)) : list (str * A) :=
 Definition ahas {A} (k : str) (m : list (str * A)) : bool :=
   match alookup k m with Some _ => true | None => false end.
 
+(* bytewise order on strings and sorting of association lists by key (Go sorts map keys) *)
+Fixpoint str_ltb (a b : str) : bool :=
+  match a, b with
+  | [], [] => false
+  | [], _ :: _ => true
+  | _ :: _, [] => false
+  | x :: a', y :: b' => if x <? y then true else if y <? x then false else str_ltb a' b'
+  end.
+
+Fixpoint insert_sorted {A} (k : str) (v : A) (l : list (str * A)) : list (str * A) :=
+  match l with
+  | [] => [(k, v)]
+  | (k', v') :: r => if str_ltb k k' then (k, v) :: l else (k', v') :: insert_sorted k v r
+  end.
+Definition sort_by_key {A} (l : list (str * A)) : list (str * A) :=
+  fold_right (fun kv acc => insert_sorted (fst kv) (snd kv) acc) [] l.
+
 (* the loop "for cur := l.Front(); ...; index--": the key at position index, "" when there is none *)
 Definition key_at (l : list str) (index : Z) : str :=
   if index <? 0 then [] else nth (Z.to_nat index) l [].
@@ -185,16 +202,12 @@ Section WithOracles.
 
   (* the *value after the call, and the error if any. A failed conversion leaves a nil raw
      value (v.raw, err = f(...) assigns the nil result). *)
+  (* (a row is a Value too, but is converted like any other data: fix F11) *)
   Definition value_import (n : nat) (raw : rv) (f : format) (typ : gval) (v : rv) : cell * res unit :=
     if rv_is_nil v then (CVal rnil f typ, Ok tt)
     else match v with
-         | RV c =>            (* val.(Value): format, raw and raw type are taken from it *)
-             match cell_raw n c with
-             | Ok m => (CVal m (cell_format c) (cell_rawtype c), Ok tt)
-             | Err e => (CVal raw f typ, Err e)
-             | Panic => (CVal raw f typ, Panic)
-             | Fuel => (CVal raw f typ, Fuel)
-             end
+         | RV (CVal raw' f' typ') =>      (* a plain Value: format, raw and raw type are taken from it *)
+             (CVal raw' f' typ', Ok tt)
          | _ =>
              match import_scalar f typ v with
              | Ok r => (CVal r f typ, Ok tt)
